@@ -269,15 +269,15 @@ DIAG_SAFE = set(chr(c) for c in range(32, 127)) | set("\n\r\t\u00e9\u4e16\U0001F
 
 
 def diag_events(lines):
-    """one event per error of an `err' outcome whose text stays within the alphabet whose display
+    """one event per error / warning of an outcome whose text stays within the alphabet whose display
     widths Diagnostics.tla models"""
     out = []
     for ln in lines:
         e = json.loads(ln)
         r = e["res"]
-        if r.get("class") != "err" or not set(e["s"]) <= DIAG_SAFE:
+        if r.get("class") not in ("err", "ok") or not set(e["s"]) <= DIAG_SAFE:
             continue
-        for k, er in enumerate(r.get("errors", [])):
+        for k, er in enumerate(list(r.get("errors", [])) + list(r.get("warnings", []))):
             if "rd" not in er:
                 continue
             out.append(json.dumps(dict(ev="diag", id=e["id"], entry=e["entry"], bytes=list(e["s"].encode()), spans=er["spans"],
